@@ -196,6 +196,8 @@ impl<'a, D> BfsDist<'a, D> {
         let visited_ptr = visited.as_mut_ptr();
 
         for u in sources {
+            assert!(u < order, "u = {u} isn't in the digraph");
+
             queue.push_back((u, 0));
 
             unsafe {
@@ -319,6 +321,11 @@ where
         let visited_ptr = self.visited.as_mut_ptr();
 
         for v in self.digraph.out_neighbors(u) {
+            assert!(
+                v < self.visited.len(),
+                "v = {v} isn't in the digraph"
+            );
+
             let visited = unsafe { visited_ptr.add(v) };
 
             unsafe {
